@@ -245,6 +245,144 @@ Proof.
   apply B. cbn. lia.
 Qed.
 
+(* ---------- the units of an IPv6 text, declaratively ---------- *)
+Definition field_units (fs : list str) : list N :=
+  flat_map (fun f => if h16b f then [hexval f]
+                     else match pton4_value f with Some m => quad_units m | None => [] end) fs.
+
+Lemma field_units_h16 g : Forall h16 g -> field_units g = map hexval g.
+Proof.
+  induction 1 as [|f t Hf _ IH]; [reflexivity|]. unfold field_units in *. cbn [flat_map map].
+  apply h16b_iff in Hf. rewrite Hf, IH. reflexivity.
+Qed.
+
+Lemma field_units_app a b : field_units (a ++ b) = field_units a ++ field_units b.
+Proof. unfold field_units. apply flat_map_app. Qed.
+
+Lemma field_units_quad q m : quad_value q m -> field_units [q] = quad_units m.
+Proof.
+  intros Q. unfold field_units. cbn [flat_map]. rewrite (quad_not_h16 q (quad_value_quad q m Q)).
+  apply pton4_value_iff in Q. rewrite Q. apply app_nil_r.
+Qed.
+
+Lemma units_hv_h16 l : Forall h16 l -> units_hv l = Some (map hexval l).
+Proof.
+  induction 1 as [|f t Hf _ IH]; [reflexivity|]. cbn [units_hv map]. apply h16b_iff in Hf. rewrite Hf, IH. reflexivity.
+Qed.
+
+Lemma units_v_field fs us : units_v fs = Some us -> us = field_units fs.
+Proof.
+  revert us. induction fs as [|f t IH]; intros us H.
+  - injection H as <-. reflexivity.
+  - destruct t as [|f2 t2].
+    + cbn [units_v] in H. unfold field_units. cbn [flat_map]. destruct (h16b f).
+      * injection H as <-. reflexivity.
+      * destruct (pton4_value f); [injection H as <-; symmetry; apply app_nil_r|discriminate].
+    + change (units_v (f :: f2 :: t2)) with (if h16b f then option_map (cons (hexval f)) (units_v (f2 :: t2)) else None) in H.
+      destruct (h16b f) eqn:E; [|discriminate]. destruct (units_v (f2 :: t2)) as [us'|]; [|discriminate].
+      injection H as <-. rewrite (IH us' eq_refl). unfold field_units. cbn [flat_map]. rewrite E. reflexivity.
+Qed.
+
+Lemma units_v_of_shape R n : tail_shape R n -> units_v R = Some (field_units R) /\ length (field_units R) = n.
+Proof.
+  intros H. apply units_spec in H. pose proof (units_v_spec R) as S.
+  destruct (units_v R) as [us|] eqn:E; [|congruence]. destruct S as [S _].
+  rewrite (units_v_field R us E) in *. split; [reflexivity|congruence].
+Qed.
+
+Lemma tail_units_v_of R n : tail_shape R n ->
+  tail_units_v (match R with [] => [[]] | _ => R end) = Some (field_units R) /\ length (field_units R) = n.
+Proof.
+  intros H. destruct R as [|x t].
+  - destruct H as [[_ ->]|[g [q [E _]]]]; [split; reflexivity|destruct g; discriminate].
+  - pose proof (tail_shape_plain _ _ H) as P. inversion P as [|? ? [Hx _] _]; subst.
+    unfold tail_units_v. destruct x as [|c x']; [congruence|].
+    destruct (units_v_of_shape _ _ H) as [U L]. split; [destruct t; exact U|exact L].
+Qed.
+
+Lemma pton6_units_nocolon c t : c <> 58 -> pton6_units (c :: t) = pton6_fields_v (c :: t).
+Proof. intros H. unfold pton6_units. apply N.eqb_neq in H. rewrite H. reflexivity. Qed.
+
+Lemma pton6_units_full R : tail_shape R 8 -> pton6_units (colons R) = Some (field_units R).
+Proof.
+  intros H. pose proof (tail_shape_plain _ _ H) as P.
+  destruct R as [|x R'].
+  { destruct H as [[_ H]|[g [q [E _]]]]; [discriminate|destruct g; discriminate]. }
+  inversion P as [|? ? Px _]; subst.
+  destruct (colons_head_plain x R' Px) as [c [t [E Hc]]]. rewrite E.
+  rewrite pton6_units_nocolon by exact Hc. rewrite <- E.
+  unfold pton6_fields_v. rewrite (split_colons_tail _ P).
+  rewrite cut_empty_none by (apply plain_nonempty, P).
+  destruct (units_v_of_shape _ _ H) as [-> L]. rewrite L. reflexivity.
+Qed.
+
+Lemma pton6_units_compressed l R n : Forall h16 l -> tail_shape R n -> (length l + n <= 7)%nat ->
+  pton6_units (colons l ++ [58; 58] ++ colons R) = Some (map hexval l ++ repeat 0 (8 - length l - n) ++ field_units R).
+Proof.
+  intros Hl HR Hn. pose proof (tail_shape_plain _ _ HR) as PR. pose proof (Forall_h16_plain _ Hl) as Pl.
+  destruct (tail_units_v_of _ _ HR) as [TU TL].
+  destruct l as [|x l'].
+  - cbn [colons join app]. unfold pton6_units. cbn [N.eqb Pos.eqb].
+    unfold pton6_fields_v. rewrite split_cons_sep. cbn [cut_empty units_hv].
+    rewrite (split_colons_tail _ PR), TU, TL. cbn [length map app] in *.
+    replace (0 + n <=? 7)%nat with true by (symmetry; apply Nat.leb_le; lia). reflexivity.
+  - pose proof (Forall_inv Pl) as Px.
+    destruct (colons_head_plain x l' Px) as [c [t [E Hc]]].
+    rewrite E. cbn [app]. rewrite pton6_units_nocolon by exact Hc.
+    change (c :: t ++ 58 :: 58 :: colons R) with ((c :: t) ++ 58 :: (58 :: colons R)). rewrite <- E.
+    unfold pton6_fields_v. rewrite split_app, split_cons_sep.
+    unfold colons at 1. rewrite split_join by (discriminate || apply plain_nocolon, Pl).
+    rewrite cut_empty_some by (apply plain_nonempty, Pl).
+    rewrite (units_hv_h16 _ Hl), (split_colons_tail _ PR), TU, TL, map_length.
+    replace (length (x :: l') + n <=? 7)%nat with true by (symmetry; apply Nat.leb_le; exact Hn). reflexivity.
+Qed.
+
+Lemma ipv6_units_text s us : ipv6_units s us -> ipv6_text s.
+Proof.
+  intros [[g [Hg [L [-> _]]]]|[[g [q [m [Hg [L [Q [-> _]]]]]]]|[[l [r [Hl [Hr [Hn [-> _]]]]]]|[l [r [q [m [Hl [Hr [Q [Hn [-> _]]]]]]]]]]]].
+  - left. exists g. repeat split; assumption.
+  - right. left. exists g, q. repeat split; try assumption. exact (quad_value_quad _ _ Q).
+  - right. right. left. exists l, r. repeat split; assumption.
+  - right. right. right. exists l, r, q. repeat split; try assumption. exact (quad_value_quad _ _ Q).
+Qed.
+
+Lemma ipv6_units_complete s us : ipv6_units s us -> pton6_units s = Some us.
+Proof.
+  intros [[g [Hg [L [-> ->]]]]|[[g [q [m [Hg [L [Q [-> ->]]]]]]]|[[l [r [Hl [Hr [Hn [-> ->]]]]]]|[l [r [q [m [Hl [Hr [Q [Hn [-> ->]]]]]]]]]]]].
+  - rewrite pton6_units_full by (left; split; [exact Hg|symmetry; exact L]). rewrite field_units_h16 by exact Hg. reflexivity.
+  - rewrite pton6_units_full by (right; exists g, q; split; [reflexivity|]; split; [exact Hg|]; split; [exact (quad_value_quad _ _ Q)|lia]).
+    rewrite field_units_app, field_units_h16, (field_units_quad q m Q) by exact Hg. reflexivity.
+  - rewrite (pton6_units_compressed l r (length r)); [| exact Hl | left; split; [exact Hr|reflexivity] | exact Hn].
+    rewrite field_units_h16 by exact Hr. reflexivity.
+  - rewrite (pton6_units_compressed l (r ++ [q]) (length r + 2)); [| exact Hl | right; exists r, q; split; [reflexivity|]; split; [exact Hr|]; split; [exact (quad_value_quad _ _ Q)|reflexivity] | lia].
+    rewrite field_units_app, field_units_h16, (field_units_quad q m Q) by exact Hr.
+    replace (8 - length l - (length r + 2))%nat with (6 - length l - length r)%nat by lia. reflexivity.
+Qed.
+
+Lemma ipv6_text_units s : ipv6_text s -> exists us, ipv6_units s us.
+Proof.
+  intros [[g [Hg [L ->]]]|[[g [q [Hg [L [Q ->]]]]]|[[l [r [Hl [Hr [Hn ->]]]]]|[l [r [q [Hl [Hr [Q [Hn ->]]]]]]]]]].
+  - eexists. left. exists g. repeat split; try assumption.
+  - destruct (quad_has_value q Q) as [m Qm]. eexists. right. left. exists g, q, m. repeat split; try assumption.
+  - eexists. right. right. left. exists l, r. repeat split; try assumption.
+  - destruct (quad_has_value q Q) as [m Qm]. eexists. right. right. right. exists l, r, q, m. repeat split; try assumption.
+Qed.
+
+Theorem pton6_units_iff s us : pton6_units s = Some us <-> ipv6_units s us.
+Proof.
+  split; [|apply ipv6_units_complete].
+  intros H. assert (T : ipv6_text s).
+  { apply pton6b_iff. pose proof (pton6_units_spec s) as S. rewrite H in S. apply S. }
+  destruct (ipv6_text_units s T) as [us' U]. pose proof (ipv6_units_complete s us' U) as C. congruence.
+Qed.
+
+Theorem pton6_value_iff s m : pton6_value s = Some m <-> ipv6_value s m.
+Proof.
+  unfold pton6_value, ipv6_value, units_to_N. split.
+  - destruct (pton6_units s) as [us|] eqn:E; [|discriminate]. intros [= <-]. exists us. split; [apply pton6_units_iff; exact E|reflexivity].
+  - intros [us [U ->]]. apply pton6_units_iff in U. rewrite U. reflexivity.
+Qed.
+
 Lemma str_to_int6_iff s m : str_to_int true s = PVal m <-> pton6_value s = Some m.
 Proof.
   unfold str_to_int. split.
@@ -255,16 +393,16 @@ Qed.
 
 (* ---------- IPAddress(text, version, INET_PTON) ---------- *)
 Lemma addr_value_bound v6 s m : addr_value v6 s m -> m < 2 ^ ip_width v6.
-Proof. destruct v6; cbn [addr_value ip_width]; [apply pton6_value_bound|apply quad_value_bound]. Qed.
+Proof. destruct v6; cbn [addr_value ip_width]; [intros H; apply pton6_value_iff in H; revert H; apply pton6_value_bound|apply quad_value_bound]. Qed.
 
 Lemma addr_value_text v6 s : (exists m, addr_value v6 s m) <-> addr_text v6 s.
 Proof.
-  destruct v6; cbn [addr_value addr_text]; [apply pton6_value_text|].
+  destruct v6; cbn [addr_value addr_text]; [rewrite <- pton6_value_text; split; intros [m H]; exists m; apply pton6_value_iff; exact H|].
   split; [intros [m H]; exact (quad_value_quad _ _ H)|apply quad_has_value].
 Qed.
 
 Lemma str_to_int_iff v6 s m : str_to_int v6 s = PVal m <-> addr_value v6 s m.
-Proof. destruct v6; [apply str_to_int6_iff|apply str_to_int4_iff]. Qed.
+Proof. destruct v6; [cbn [addr_value]; rewrite <- pton6_value_iff; apply str_to_int6_iff|apply str_to_int4_iff]. Qed.
 
 Lemma addr_text_no_slash v6 s : addr_text v6 s -> ~ In 47 s.
 Proof.
@@ -346,7 +484,7 @@ Proof.
       * discriminate.
       * intros [[z [H _]]|[_ [m' [H' M]]]]; [discriminate|]. exfalso.
         assert (m' = m).
-        { destruct v6; cbn [addr_value] in *; [congruence|].
+        { destruct v6; cbn [addr_value] in *; [apply pton6_value_iff in H', EA; congruence|].
           apply pton4_value_iff in H', EA. congruence. }
         subst m'. apply (mask_iff v6 m B) in M. congruence.
     + split; [discriminate|]. intros [[z [H _]]|[_ [m [H _]]]]; [discriminate|].
@@ -561,3 +699,5 @@ Proof.
   repeat split; try (apply (mask_iff false); vm_compute; reflexivity).
   intros H. apply (mask_iff false) in H; [vm_compute in H; discriminate|vm_compute; reflexivity].
 Qed.
+Example ex_v6_value : ipv6_value (lit "ffff::") (2 ^ 128 - 2 ^ 112) /\ ipv6_value (lit "::ffff:1.2.3.4") 281470698652420 /\ ipv6_value (lit "::1") 1.
+Proof. repeat split; apply pton6_value_iff; vm_compute; reflexivity. Qed.
